@@ -138,6 +138,13 @@ class Layout:
         return ''.join(self.rng.choice(' \t') for _ in range(self.rng.choice([0, 0, 1, 2])))
 
 
+def spread(db, L):
+    """a dot-bracket with blanks / tabs between its characters (it is one token up to blanks)"""
+    if L.rng is None or len(db) < 2 or L.rng.random() < 0.5:
+        return db
+    return db[0] + ''.join(L.tight() + c for c in db[1:])
+
+
 def render_pattern(p, L):
     out = []
     i = 0
@@ -172,7 +179,7 @@ def render_statement(tree, spec, L):
             nl1 = '\n' if spec['nl'][0] else L.need()
             nl2 = '\n' if spec['nl'][1] else L.need()
             return 'complex' + L.need() + tree[1] + L.opt() + spec['as'][0] + (L.tight() + nl1 if spec['nl'][0] else L.opt()) + \
-                L.need().join(tree[2]) + (L.tight() + nl2 if spec['nl'][1] else L.need()) + tree[3]
+                L.need().join(tree[2]) + (L.tight() + nl2 if spec['nl'][1] else L.need()) + spread(tree[3], L)
         parts = []
         for i, d in enumerate(tree[2]):
             if spec['plus'][i]:
@@ -180,7 +187,7 @@ def render_statement(tree, spec, L):
             parts.append(d)
         if spec['plus'][len(tree[2])]:
             parts.append('+')
-        return 'structure' + L.need() + tree[1] + L.opt() + spec['as'][0] + L.opt() + L.need().join(parts) + L.opt() + spec['as'][1] + L.opt() + tree[3]
+        return 'structure' + L.need() + tree[1] + L.opt() + spec['as'][0] + L.opt() + L.need().join(parts) + L.opt() + spec['as'][1] + L.opt() + spread(tree[3], L)
     if k == 'reaction':
         s = spec['kw'] + L.need()
         info = tree[1]
